@@ -248,7 +248,7 @@ func main() {
 	for _, c := range corpus() {
 		emit(c.doc, c.name, "", map[string]bool{"corpus": true})
 	}
-	n := f.Count(330, 12000)
+	n := f.Count(280, 9000)
 	for i := 0; i < n; i++ {
 		r := gen.Fork(f.Seed, i)
 		g := &G{r: r, cls: map[string]bool{}}
